@@ -345,6 +345,13 @@ func poolSortCategory(p *v3.IPPool) int {
 	if hasCondition(p, v3.IPPoolConditionAllocatable, metav1.ConditionFalse) {
 		return 2
 	}
+	if hasFinalizer(p) {
+		// No Allocatable condition, but the pool carries our finalizer: an earlier pass judged it active and only
+		// its status write did not land (IPAM treats a pool without the condition as allocatable). Keep its place
+		// among the active pools, otherwise a newer overlapping pool that was written Allocatable=False in that
+		// same pass (category 2) would be evaluated first on the retry and displace it.
+		return 0
+	}
 	return 3
 }
 
